@@ -450,8 +450,23 @@ func (w *worker) wuffsModelOps(k *kase, f lz.FileFormat, enc []byte, res *result
 		}
 		fb, name, body = 'M', "lzma2", enc[24:]
 	}
+	w.wuffsModelRun(k, fb, name, body, res)
+	if f == lz.FileFormatXz && w.wuffs != nil {
+		// and the whole file through std/xz against Model/XzWuffs.lean
+		w.wuffsModelRun(k, 'X', "xz", enc, res)
+	}
+}
+
+func (w *worker) wuffsModelRun(k *kase, fb byte, name string, body []byte, res *result) {
 	inputs := [][]byte{body, append(append([]byte(nil), body...), 0x55, 0x00, 0xFF)}
-	for _, cut := range []int{1, 2, 5, len(body) / 2, len(body) - 14} {
+	cuts := []int{1, 2, 5, len(body) / 2, len(body) - 14}
+	if name == "xz" {
+		cuts = append(cuts, 13, 17, 22, 30) // inside the footer, the index CRC, the index, the check
+	}
+	if strings.HasPrefix(k.name, "sweep:") {
+		cuts = []int{1 + len(body)%29}
+	}
+	for _, cut := range cuts {
 		if cut > 0 && cut < len(body) {
 			inputs = append(inputs, body[:len(body)-cut])
 		}
@@ -472,7 +487,7 @@ func (w *worker) wuffsModelOps(k *kase, f lz.FileFormat, enc []byte, res *result
 			out = fmt.Sprintf("ok %s rest=%d", hlib.Hex(o), len(in)-consumed)
 		} else {
 			// the C API prints "#truncated input" of package lzma as "lzma: truncated input"
-			st = "#" + strings.TrimPrefix(strings.TrimPrefix(st, "lzma: "), "#")
+			st = "#" + strings.TrimPrefix(strings.TrimPrefix(strings.TrimPrefix(st, "lzma: "), "xz: "), "#")
 			out = fmt.Sprintf("fail %s %s", strings.ReplaceAll(st, " ", "_"), hlib.Hex(o))
 		}
 		res.ops = append(res.ops, opLine{"wdec " + name + " " + hlib.Hex(in), out})
